@@ -15,14 +15,14 @@ def run(tier):
     for p in (PROGS_Q if q else PROGS_T):
         for again in ("0", "1"):
             conds.append(Cond("h_constraints.py", "cached_equals_fresh", to, path_timeout=to / 2,
-                              env=dict({"H_PROG": str(p), "H_R2": "0" if q else "2", "H_AGAIN": again}, **({"H_R1MIN": "3"} if q else {}))))
+                              env=dict({"H_PROG": str(p), "H_R2": "0", "H_AGAIN": again}, **({"H_R1MIN": "3"} if q else {}))))
     conds.append(Cond("h_constraints.py", None, 600, twin="reach", env={"H_PROG": "21", "H_R2": "2"}))
     run.run_conditions(conds, conformance_harnesses=["h_constraints.py"])
     run.encoded = ENCODED + ["Constraint.cache (per-constraint memo)", "Evaluator._fitness_cache/_solution_set", "DerivationTree.invalidate_hash/set_children"]
     run.extra["source_sha256_16"] = source_fingerprint(FILES + ["fandango/language/tree.py"])
     run.bounds = {"history": "evaluate tree A; then tree B = A with one leaf replaced (symbolic position and character), either as a new "
                   "tree or by editing the already evaluated object in place; same long-lived constraint + Evaluator objects",
-                  "programs": PROGS_Q if q else "all 29", "trees": "1 record with 2 values (quick) / up to 2 records (thorough), leaf alphabet {0,5,a}"}
+                  "programs": PROGS_Q if q else "all 29", "trees": "1 record with 2 values (quick) / 1 record with 1-2 values (thorough), leaf alphabet {0,5,a}"}
     run.outside = ["longer histories", "crossover/repair-produced trees (covered structurally by C10)", "specs with soft constraints (excluded by the property)"]
     run.assumptions = ["'fresh' = separate constraint objects read from the same text, caches emptied before use (the spec reader cannot run inside the engine)",
                        "finite leaf alphabet; CrossHair + plug-in conformance gate; z3 5.1"]
